@@ -548,6 +548,14 @@ namespace
                 if (!r.size)
                     r.size = 1;
             }
+            // both sides of the wrapped allocator's max_node_size (memory_resource_adapter decides
+            // node versus array with it)
+            if (op.a % 7 == 6 && env.leaves[0].max_node < (size_t(1) << 20))
+            {
+                size_t m = env.leaves[0].max_node;
+                static const long delta[] = {-1, 0, 1};
+                r.size = m * (1 + (op.a / 7) % 2) + size_t(delta[(op.a / 14) % 3]);
+            }
             r.count = array ? counts[op.c % 8] : 1;
             r.align = size_t(1) << (op.b % 7);
             if (array && r.count * r.size > 400000)
@@ -883,6 +891,13 @@ namespace
             if (prop == "C09")
                 env.leaves[0].cap_bytes = P(5) % 3 ? size_t(1) << 22 : caps[P(5) % 6];
             env.leaves[3].cap_bytes = size_t(1) << 24;
+            if (P(0) % 20 == 15)
+            {
+                // memory_resource_adapter: a small max_node_size so that requests straddle it
+                static const size_t mx[] = {64, 100, 256, 1000, size_t(1) << 22};
+                env.leaves[0].max_node  = mx[P(6) % 5];
+                env.leaves[0].cap_bytes = size_t(1) << 22;
+            }
             c          = make_comp(P(0), env, prog);
             ci.subject = c->name;
             for (auto& op : prog.ops)
